@@ -237,4 +237,133 @@ theorem fill_holds (d ps : Nat) (rows : List Row) (hps : 1 ≤ ps) :
     ({ D := clog2 (numPages rows.length ps), ps := ps, bt := fill d ps rows, rows := rows } : Arr).Holds d :=
   fill_holds_aux d ps rows _ hps rfl
 
+/-! ### the pass on the array itself computes the same rows -/
+
+/-- the array `l` (of `len` rows) and the function `bt` agree on the rows of the tree -/
+def Sim (len : Nat) (l : List (Option NBox)) (bt : BT) : Prop := l.length = len ∧ ∀ i, i < len → l.getD i none = bt i
+
+theorem getD_set (l : List (Option NBox)) (k i : Nat) (v : Option NBox) :
+    (l.set k v).getD i none = if i = k ∧ k < l.length then v else l.getD i none := by
+  simp only [List.getD_eq_getElem?_getD, List.getElem?_set]
+  by_cases h : k = i
+  · subst h
+    by_cases hk : k < l.length
+    · simp [hk]
+    · simp [hk, List.getElem?_eq_none (Nat.le_of_not_lt hk)]
+  · have h' : ¬ i = k := fun e => h e.symm
+    simp [h, h']
+
+theorem sim_set {len : Nat} {l : List (Option NBox)} {bt : BT} (h : Sim len l bt) (k : Nat) (v : Option NBox) :
+    Sim len (l.set k v) (setAt bt k v) := by
+  refine ⟨by rw [List.length_set]; exact h.1, ?_⟩
+  intro i hi
+  rw [getD_set]
+  simp only [setAt]
+  by_cases hik : i = k
+  · subst hik
+    have : i < l.length := by rw [h.1]; exact hi
+    simp [this]
+  · rw [if_neg (fun hc => hik hc.1), if_neg hik]
+    exact h.2 i hi
+
+theorem sim_fillNode {len : Nat} {l : List (Option NBox)} {bt : BT} (d : Nat) (h : Sim len l bt) (node : Nat)
+    (hr : rightChild node < len) : Sim len (fillNodeL d l node) (fillNode d bt node) := by
+  have hl : leftChild node < len := by unfold leftChild; unfold rightChild at hr; omega
+  unfold fillNodeL fillNode
+  rw [h.2 _ hl, h.2 _ hr]
+  cases bt (leftChild node) <;> cases bt (rightChild node)
+  · exact h
+  · exact sim_set h _ _
+  · exact sim_set h _ _
+  · exact sim_set h _ _
+
+theorem sim_fold_nodes {len : Nat} (d s : Nat) : ∀ (m : Nat) (l : List (Option NBox)) (bt : BT), Sim len l bt →
+    (∀ i, i < m → rightChild (s + i) < len) →
+    Sim len ((List.range m).foldl (fun bt i => fillNodeL d bt (s + i)) l) ((List.range m).foldl (fun bt i => fillNode d bt (s + i)) bt) := by
+  intro m
+  induction m with
+  | zero => intro l bt h _; simpa using h
+  | succ n ih =>
+    intro l bt h hr
+    rw [List.range_succ, List.foldl_append, List.foldl_append]
+    simp only [List.foldl_cons, List.foldl_nil]
+    exact sim_fillNode d (ih l bt h (fun i hi => hr i (by omega))) _ (hr n (by omega))
+
+theorem sim_leaves {len : Nat} (d ps : Nat) (rows : List Row) (ls : Nat) : ∀ (np : Nat) (l : List (Option NBox)) (bt : BT), Sim len l bt →
+    Sim len (fillLeavesL d ps rows ls np l) (fillLeaves d ps rows ls np bt) := by
+  intro np
+  induction np with
+  | zero => intro l bt h; simpa [fillLeavesL, fillLeaves] using h
+  | succ n ih =>
+    intro l bt h
+    unfold fillLeavesL fillLeaves
+    rw [List.range_succ, List.foldl_append, List.foldl_append]
+    simp only [List.foldl_cons, List.foldl_nil]
+    have := ih l bt h
+    unfold fillLeavesL fillLeaves at this
+    exact sim_set this _ _
+
+theorem sim_fillUp (d D : Nat) : ∀ (l s e : Nat) (bl : List (Option NBox)) (bt : BT), l ≤ D →
+    (1 ≤ l → s = 2 ^ (l - 1) - 1 ∧ e = 2 ^ l - 2) → Sim (2 * 2 ^ D - 1) bl bt →
+    Sim (2 * 2 ^ D - 1) (fillUpL d l s e bl) (fillUp d l s e bt) := by
+  intro l
+  induction l with
+  | zero => intro s e bl bt _ _ h; simpa [fillUpL, fillUp] using h
+  | succ k ih =>
+    intro s e bl bt hl hse h
+    obtain ⟨hs, he⟩ := hse (by omega)
+    simp only [Nat.add_sub_cancel] at hs
+    subst hs he
+    simp only [fillUpL, fillUp]
+    have hpk := Nat.two_pow_pos k
+    have h2k : 2 ^ (k + 1) = 2 * 2 ^ k := by rw [Nat.pow_succ]; omega
+    have hkD : 2 ^ (k + 1) ≤ 2 ^ D := Nat.pow_le_pow_right (by omega) hl
+    apply ih _ _ _ _ (by omega)
+    · intro hk
+      exact ⟨parent_start k hk, parent_stop k hk⟩
+    · unfold fillLayerL fillLayer
+      apply sim_fold_nodes d _ _ _ _ h
+      intro i hi
+      unfold rightChild
+      omega
+
+theorem sim_fill (d ps : Nat) (rows : List Row) :
+    Sim (2 * 2 ^ clog2 (numPages rows.length ps) - 1) (fillL d ps rows) (fill d ps rows) := by
+  unfold fillL fill
+  simp only
+  generalize clog2 (numPages rows.length ps) = D
+  have hpD := Nat.two_pow_pos D
+  have hlen : 2 * 2 ^ D - 1 - 2 ^ D = 2 ^ D - 1 := by omega
+  have h2D : 2 ^ (D + 1) = 2 * 2 ^ D := by rw [Nat.pow_succ]; omega
+  apply sim_fillUp d D D _ _ _ _ (Nat.le_refl _)
+  · intro hD1
+    rw [hlen]
+    refine ⟨parent_start D hD1, ?_⟩
+    have : 2 * 2 ^ D - 1 - 1 = 2 ^ (D + 1) - 2 := by omega
+    rw [this]
+    exact parent_stop D hD1
+  · apply sim_leaves
+    refine ⟨by simp, ?_⟩
+    intro i hi
+    simp [List.getD_eq_getElem?_getD, List.getElem?_replicate, hi]
+
+/-- **the array the coded pass leaves behind holds, in row `2^t − 1 + j`, the box of the sub-tree at depth `t`, position `j`** -/
+theorem fillL_holds (d ps : Nat) (rows : List Row) (hps : 1 ≤ ps) :
+    ({ D := clog2 (numPages rows.length ps), ps := ps, bt := fun i => (fillL d ps rows).getD i none, rows := rows } : Arr).Holds d := by
+  intro t j ht hj
+  have hs := sim_fill d ps rows
+  have hh := fill_holds d ps rows hps t j ht hj
+  have hD : ({ D := clog2 (numPages rows.length ps), ps := ps, bt := fun i => (fillL d ps rows).getD i none, rows := rows } : Arr).D =
+      clog2 (numPages rows.length ps) := rfl
+  rw [hD] at ht
+  have hpt : 2 ^ t ≤ 2 ^ clog2 (numPages rows.length ps) := Nat.pow_le_pow_right (by omega) ht
+  have hpt0 := Nat.two_pow_pos t
+  have hidx : 2 ^ t - 1 + j < 2 * 2 ^ clog2 (numPages rows.length ps) - 1 := by omega
+  show (fillL d ps rows).getD (2 ^ t - 1 + j) none = _
+  rw [hs.2 _ hidx]
+  exact hh
+
+theorem fillL_length (d ps : Nat) (rows : List Row) : (fillL d ps rows).length = 2 * 2 ^ clog2 (numPages rows.length ps) - 1 :=
+  (sim_fill d ps rows).1
+
 end SpVerif.RTreeFill
